@@ -794,8 +794,12 @@ func (e *Engine) evalCall(env *Env, n *cexpr.Node) Value {
 		return PtrV{Ref: smt.AppS("val_r", smt.Int, x.T), Base: tv.T, Elem: tv.T}
 	case "typeis":
 		x := e.eval(env, args[0]).(AnyV)
-		tv := e.eval(env, args[1]).(TypeV)
-		var t types.Type = tv.T
+		var t types.Type
+		if tn, ok := types.Universe.Lookup(args[1].Name).(*types.TypeName); ok && args[1].Kind == "ident" {
+			t = tn.Type() // predeclared type (int64, uint8, float32, ...)
+		} else {
+			t = e.eval(env, args[1]).(TypeV).T
+		}
 		if len(args) > 2 {
 			t = types.NewPointer(t)
 		}
